@@ -1,6 +1,7 @@
 // Scenarios "hostile_srv" (C05) and "hostile_cli" (C06/C13): real programs under
 // ASan/UBSan receive generated hostile datagrams inside live sessions.
 #include "scen.h"
+#include "model.h"
 #include <memory>
 #include "gen.h"
 #include "hostgen.h"
@@ -88,6 +89,25 @@ J gen_hostile_srv(uint64_t seed, const J &ov)
 		op.set("hex", hexs(d));
 		ops.push(op);
 	}
+	// an insider: a model client that knows the password, logs in (sometimes also raw) and then misbehaves from its own address
+	if (r.chance(0.6)) {
+		J models = J::arr(); J m = J::obj();
+		m.set("name", "h0"); m.set("ip", "10.9.4.1"); m.set("auto", true); m.set("start_us", (long long)((0.2 + r.uniform() * 2) * 1e6));
+		m.set("ping_period", 0.5 + r.uniform() * 3);
+		static const char *qts[] = {"NULL", "TXT", "CNAME", "MX", "SRV", "A", "PRIVATE"};
+		m.set("qtype", qts[r.range(0, 6)]);
+		if (r.chance(0.4)) m.set("fragsize", (int)r.range(2, 2000));
+		if (r.chance(0.4)) { static const int ue[] = {6, 26, 7}; m.set("upenc", ue[r.range(0, 2)]); }
+		m.set("lazy", r.chance(0.5));
+		models.push(m); cfg.set("models", models);
+		bool rawl = r.chance(0.3);
+		if (rawl) { J op = J::obj(); op.set("ref", "abs"); op.set("t", (long long)((3 + r.uniform() * 2) * 1e6)); op.set("op", "mc"); op.set("who", "h0"); op.set("act", "rawlogin"); op.set("mode", "good"); ops.push(op); }
+		int k = (int)r.range(20, 300);
+		for (int i = 0; i < k; i++) {
+			J op = J::obj(); op.set("ref", "abs"); op.set("t", (long long)((4 + r.uniform() * (H + 10)) * 1e6)); op.set("op", "mc"); op.set("who", "h0"); op.set("act", "hostile"); op.set("key", (long long)(r.next() >> 1));
+			ops.push(op);
+		}
+	}
 	// on-path mutation of the sessions' own traffic during the hostile phase
 	J f = J::obj();
 	f.set("ref", "T0"); f.set("t0_us", (long long)1000000); f.set("t1_us", (long long)((1 + H) * 1e6));
@@ -134,7 +154,8 @@ World *build_hostile_srv(const J &plan)
 	World *w = new World();
 	w->plan = plan;
 	w->build_common();
-	w->add(mk_c01_integrity(w));
+	if (w->cfg.has("models")) { Models *ms = new Models(); ms->w = w; w->models = ms; for (auto &m : w->cfg["models"].a) ms->add(m.gets("name"), m); }
+	if (!w->models) w->add(mk_c01_integrity(w));      // an insider is a legitimate sender: what it makes the server write is its own
 	// with a second (late) client the C02 monitor watches only client 0 (it requires clients.size()==1): use a view
 	w->add(mk_c02_delivery(w, false, true));
 	w->add(mk_c14_ledger(w, false));
